@@ -273,10 +273,12 @@ def monitor(case, o1, o2, mrecs=None):
     hits = []
     cfg_delay = int(case[0].split()[2])
     expr = {}
+    expr_all = collections.defaultdict(set)
     for ln in case[1:]:
         f = ln.split()
         if f[0] == "req" and f[2] == "L" and int(f[10]) > 0:
             expr[(int(f[14]), int(f[6]), int(f[5]))] = int(f[10])      # latest Expried asked for (db, key, lockid)
+            expr_all[(int(f[14]), int(f[6]), int(f[5]))].add(int(f[10]))
     A = [hold_fields(l) for l in o1["holds"]]
     B = [hold_fields(l) for l in o2["holds"]]
     nowend, wall = o1["nowend"], o2["wall"]
@@ -316,6 +318,7 @@ def monitor(case, o1, o2, mrecs=None):
         if not disk_dropped(f, wall):
             eff_model[(int(f[1]), int(f[5]))].append(tuple(f[2:14]))
     locks_on_key = collections.defaultdict(set)
+    counts_on_key = collections.defaultdict(set)
     updates_on_key = set()
     prio_unlock_on_key = set()
     updflag_on_key = set()
@@ -325,6 +328,8 @@ def monitor(case, o1, o2, mrecs=None):
         if f[0] == "req" and f[2] == "L":
             locks_on_key[(int(f[14]), int(f[6]))].add(int(f[5]))
             nlocks[(int(f[14]), int(f[6]))] += 1
+            if int(f[10]) > 0:
+                counts_on_key[(int(f[14]), int(f[6]))].add(int(f[11]))
             if int(f[4]) & 3 or nlocks[(int(f[14]), int(f[6]))] > 1:
                 updates_on_key.add((int(f[14]), int(f[6])))          # update / re-entrant re-lock may change the terms
             if int(f[4]) & 2:
@@ -338,9 +343,9 @@ def monitor(case, o1, o2, mrecs=None):
         kk = (k[0], k[1])
         if twice[k] > 1:
             return "<-same-lockid-held-twice"
-        if expr.get(k) == 65535 and not (aidx.get(k, {}).get("eflag", 0) & 0x4400):
+        if 65535 in expr_all.get(k, ()) and not (aidx.get(k, {}).get("eflag", 0) & 0x4400):
             return "<-expried-65535-wraps"                       # uint16(eT - CommandTime) = uint16(65536) = 0 in the record (minutes: 65535 + 1)
-        counts = set(h["count"] for h in A if (h["db"], h["key"]) == kk)
+        counts = set(h["count"] for h in A if (h["db"], h["key"]) == kk) | (counts_on_key[kk] if len(locks_on_key[kk]) > 1 else set())
         if len(mixed_hold.get(k, ())) < 2 and len(counts) > 1:
             return "<-shared-count-oldest-holder"                # doLock judges by the Count of the oldest holder
         if len(mixed.get(kk, ())) == 2:
